@@ -31,7 +31,23 @@ const hookFile = `//go:build verifsim
 
 package dns
 
-import "runtime"
+import (
+	"net"
+	"runtime"
+)
+
+// VerifsimUDPConn stands where the library says *net.UDPConn (which satisfies
+// it): the simulator's datagram socket can then take the library's UDP branch
+// (SessionUDP, control messages) instead of the generic PacketConn one.
+type VerifsimUDPConn interface {
+	net.PacketConn
+	ReadMsgUDP(b, oob []byte) (n, oobn, flags int, addr *net.UDPAddr, err error)
+	WriteMsgUDP(b, oob []byte, addr *net.UDPAddr) (n, oobn int, err error)
+	ReadFromUDP(b []byte) (int, *net.UDPAddr, error)
+	WriteToUDP(b []byte, addr *net.UDPAddr) (int, error)
+	SetReadBuffer(bytes int) error
+	SetWriteBuffer(bytes int) error
+}
 
 // VerifsimYield and VerifsimLockWait are set by the simulator; nil means
 // every helper is a straight pass-through.
@@ -57,6 +73,7 @@ func verifsimLockWait(site string) {
 
 func main() {
 	dir := flag.String("dir", "", "scratch copy of the repository to rewrite in place")
+	flag.BoolVar(&udpSeam, "udp", true, "substitute the interface VerifsimUDPConn for *net.UDPConn")
 	flag.Parse()
 	if *dir == "" || strings.HasPrefix(filepath.Clean(*dir), "/repo") {
 		fmt.Fprintln(os.Stderr, "instr: -dir must name a scratch copy outside /repo")
@@ -66,6 +83,26 @@ func main() {
 		fmt.Fprintln(os.Stderr, "instr:", err)
 		os.Exit(2)
 	}
+}
+
+var udpSeam bool
+
+// R4 (textual, after printing): the type *net.UDPConn becomes the interface
+// VerifsimUDPConn wherever the library names it, and setUDPSocketOptions asks
+// the socket itself when it is the simulator's (the setsockopt calls need a
+// real descriptor).
+func udpRewrite(src []byte) ([]byte, int) {
+	n := bytes.Count(src, []byte("*net.UDPConn"))
+	if n == 0 {
+		return src, 0
+	}
+	src = bytes.ReplaceAll(src, []byte("*net.UDPConn"), []byte("VerifsimUDPConn"))
+	sig := []byte("func setUDPSocketOptions(conn VerifsimUDPConn) error {\n")
+	if i := bytes.Index(src, sig); i >= 0 {
+		stub := "\tif s, ok := conn.(interface{ VerifsimSocketOptions() error }); ok {\n\t\treturn s.VerifsimSocketOptions()\n\t}\n"
+		src = append(src[:i+len(sig):i+len(sig)], append([]byte(stub), src[i+len(sig):]...)...)
+	}
+	return src, n
 }
 
 type rewriter struct {
@@ -115,15 +152,29 @@ func run(dir string) error {
 	for i, f := range files {
 		rw := &rewriter{fset: fset, info: info, file: names[i], stats: map[string]int{}, done: map[ast.Node]bool{}}
 		rw.walkFile(f)
+		var out []byte
 		if rw.sites == 0 {
+			out, err = os.ReadFile(filepath.Join(dir, names[i]))
+			if err != nil {
+				return err
+			}
+		} else {
+			var buf bytes.Buffer
+			cfg := printer.Config{Mode: printer.SourcePos | printer.TabIndent, Tabwidth: 8}
+			if err := cfg.Fprint(&buf, fset, f); err != nil {
+				return fmt.Errorf("%s: %v", names[i], err)
+			}
+			out = buf.Bytes()
+		}
+		nudp := 0
+		if udpSeam {
+			out, nudp = udpRewrite(out)
+			rw.stats["udpconn"] += nudp
+		}
+		if rw.sites == 0 && nudp == 0 {
 			continue
 		}
-		var buf bytes.Buffer
-		cfg := printer.Config{Mode: printer.SourcePos | printer.TabIndent, Tabwidth: 8}
-		if err := cfg.Fprint(&buf, fset, f); err != nil {
-			return fmt.Errorf("%s: %v", names[i], err)
-		}
-		if err := os.WriteFile(filepath.Join(dir, names[i]), buf.Bytes(), 0o644); err != nil {
+		if err := os.WriteFile(filepath.Join(dir, names[i]), out, 0o644); err != nil {
 			return err
 		}
 		for k, v := range rw.stats {
